@@ -533,6 +533,10 @@ def generate():
                                              "UnknownNode.get_readonly_uri"])
     node_pins = node_identity_pins()
     nodemaker_part(out)
+    dirnode_pins = simple_pins("src/allmydata/dirnode.py", ["_pack_normalized_children", "DirectoryNode._unpack_contents",
+                                                            "DirectoryNode._create_and_validate_node", "DirectoryNode._pack_contents"])
+    out.append("\n(* dirnode.py: how a child's caps are written and read back (Model/UriNodes.v dir_store_read) *)")
+    out.append("Definition dirnode_code_pins : list (string * string) := %s." % coq_list(dirnode_pins, per_line=True))
     out.append("\n(* pins (SHA-256 prefix of the normalised source text; identity methods as text) of the definitions the hand-written models were written for *)")
     out.append("Definition base32_code_pins : list (string * string) := %s." % coq_list(b32_pins, per_line=True))
     out.append("Definition uri_code_pins : list (string * string) := %s." % coq_list(code_pins, per_line=True))
